@@ -192,6 +192,14 @@ static void PlatformSpecificRestoreJumpBufferImplementation()
     jmp_buf_index--;
 }
 
+#ifdef CPPUTEST_VERIF_HOOKS
+/* read-only accessor for verification harnesses: current depth of the jump-buffer stack */
+int CppUTestVerif_JumpBufferDepth(void)
+{
+    return jmp_buf_index;
+}
+#endif
+
 void (*PlatformSpecificLongJmp)() = PlatformSpecificLongJmpImplementation;
 int (*PlatformSpecificSetJmp)(void (*)(void*), void*) = PlatformSpecificSetJmpImplementation;
 void (*PlatformSpecificRestoreJumpBuffer)() = PlatformSpecificRestoreJumpBufferImplementation;
